@@ -58,7 +58,7 @@ pub fn drive(args: &[String]) {
     let mut sink = Sink::create(&out);
     let mut rng = rng(8);
     let mut corpus: Vec<PartialDSym> = syms_from_files(&files).into_iter().filter(|s| s.is_connected() && s.dim() == 2).collect();
-    corpus.extend(generated_2d(maxgen).into_iter().filter(|s| s.size() >= 4));
+    corpus.extend(generated_2d_reach(maxgen, 8, 150, &mut rng).into_iter().filter(|s| s.size() >= 4));
     // all connected D-sets with every branching assignment up to 4 (capped per D-set)
     corpus.extend(sets_with_branching(2, maxset, &[1, 2, 3, 4], 24, &mut rng).into_iter().filter(|s| s.size() >= 3));
     corpus.extend(sets_with_branching(2, maxset, &[1, 5, 7, 12], 4, &mut rng));
